@@ -40,6 +40,14 @@ type faultClass struct {
 	Bits              int // number of bit positions for flip kinds (0 = not a flip)
 }
 
+// rpcErrors: what a server may put into an rpc_error; DC > 0: a conformant reference server is configured for that
+// data centre in the client's list
+var rpcErrors = []struct {
+	Code int32
+	Text string
+	DC   int
+}{{400, "INTERNAL_SERVER_ERROR", 0}, {303, "PHONE_MIGRATE_2", 2}, {303, "PHONE_MIGRATE_9", 0}, {303, "NETWORK_MIGRATE_2", 2}, {303, "USER_MIGRATE_2", 2}, {420, "FLOOD_WAIT_3", 0}, {303, "FILE_MIGRATE_2", 2}, {500, "PHONE_MIGRATE_2", 2}}
+
 var catalogue = []faultClass{
 	{"resPQ", "nonce", "flip", 128}, {"resPQ", "nonce", "random", 0}, {"resPQ", "nonce", "other", 0}, {"resPQ", "nonce", "zero", 0},
 	{"resPQ", "fingerprints", "other-clients-key", 0},
@@ -54,6 +62,9 @@ var catalogue = []faultClass{
 	{"dhGen", "server_nonce", "flip", 128}, {"dhGen", "server_nonce", "random", 0}, {"dhGen", "server_nonce", "other", 0}, {"dhGen", "server_nonce", "zero", 0},
 	{"dhGen", "new_nonce_hash", "flip", 128}, {"dhGen", "new_nonce_hash", "hash2", 0}, {"dhGen", "new_nonce_hash", "hash3", 0}, {"dhGen", "new_nonce_hash", "random-hash", 0},
 	{"dhGen", "kind", "gen_retry", 0}, {"dhGen", "kind", "gen_fail", 0},
+	// a reply of the wrong kind that is no constructor of the exchange at all: rpc_error, with texts the client handles
+	// by itself elsewhere (the "bit" selects the text)
+	{"resPQ", "kind", "rpc_error", len(rpcErrors)}, {"dhParams", "kind", "rpc_error", len(rpcErrors)}, {"dhGen", "kind", "rpc_error", len(rpcErrors)},
 	// substitution by zero / by the other nonce for the hash too, and partially zeroed values (head or tail kept)
 	{"dhGen", "new_nonce_hash", "zero", 0}, {"dhGen", "new_nonce_hash", "other", 0}, {"dhGen", "new_nonce_hash", "zero-head", 15}, {"dhGen", "new_nonce_hash", "zero-tail", 15},
 	{"resPQ", "nonce", "zero-head", 15}, {"resPQ", "nonce", "zero-tail", 15},
@@ -65,6 +76,9 @@ var catalogue = []faultClass{
 func judge(sc *scen.Scenario, res *scen.Result, runErr error) (string, error) {
 	f := sc.Fault
 	where := fmt.Sprintf("[%s.%s %s bit %d]", f.Step, f.Field, f.Kind, f.Bit)
+	if f.Kind == "rpc_error" {
+		where = fmt.Sprintf("[%s answered with rpc_error %d %s]", f.Step, f.Code, f.Text)
+	}
 	if runErr != nil {
 		return "inconclusive", fmt.Errorf("INFRA: %v", runErr)
 	}
@@ -121,6 +135,9 @@ func evaluate(sc *scen.Scenario) error {
 	b, _ := json.Marshal(sc)
 	f := sc.Fault
 	cls := []string{"step:" + f.Step, fmt.Sprintf("fault:%s.%s:%s", f.Step, f.Field, f.Kind), "verdict:" + verdict}
+	if f.Kind == "rpc_error" && len(sc.HSDCs) > 0 {
+		cls = append(cls, "fault:rpc_error-naming-a-configured-data-centre")
+	}
 	if res != nil && res.ConnectErr != "" {
 		cls = append(cls, "client-error:"+strings.SplitN(strings.TrimPrefix(res.ConnectErr, "making auth key: "), ":", 3)[0])
 	}
@@ -149,6 +166,13 @@ func build(src scen.Source, keys []refsrv.RSAKeyJSON, fc faultClass, bit int) (*
 	sc.HS.P, sc.HS.Q = 1000003, 1000033
 	sc.Probe = false
 	sc.Fault = &refsrv.Fault{Step: fc.Step, Field: fc.Field, Kind: fc.Kind, Bit: bit, Rand: src.Bytes("faultrand", 16)}
+	if fc.Kind == "rpc_error" {
+		re := rpcErrors[bit%len(rpcErrors)]
+		sc.Fault.Code, sc.Fault.Text = re.Code, re.Text
+		if re.DC > 0 {
+			sc.HSDCs = []int{re.DC}
+		}
+	}
 	if fc.Kind == "other-clients-key" {
 		// a second client object of the process, configured with another key, has already used it; the server under test
 		// offers the fingerprint of that key only
